@@ -166,6 +166,35 @@ CLAIMED["C13"] = dict(
     technique="TLC exploration of API histories on a heap-of-cells specification + history replay with per-step digests of all live objects",
     design="7/C13")
 
+CLAIMED["C08"] = dict(
+    text="On the listener machine an argument whose term mentions registers is delivered as a transform over exactly those registers (Deliver/RegsOf); "
+         "TLC checks TransformIffRegisters, PlainStaysPlain for every generated register expression (5 registers incl. multi-digit q10/q12, int/float "
+         "constants, a declared variable; no identically cancelling register by construction) in positional and keyword position. The real loader is "
+         "run on each script under several PYTHONHASHSEEDs (the listed order is hash dependent): set(regrefs) must equal the registers written, "
+         "without duplicates, and func applied to values in the LISTED order must equal the written expression at 3 sample assignments.",
+    note="Trusted: TLC, renderer, the harness term evaluator. Sample values in (0.3, 1.7), away from poles.",
+    technique="TLC invariants on register-expression delivery + replay under several hash seeds with pairing check of regrefs and func",
+    design="7/C08")
+CLAIMED["C18"] = dict(
+    text="Layout is defined at the token level: the BBLexer machine (TLC) reproduces the real lexer's token stream of every layout variant, the "
+         "BBGrammar machine accepts it, and the variant's significant tokens equal the canonical layout's; the programs are the ones the C02 model "
+         "predicts. For every script, layouts drawn from 13 single edits and their combinations (CRLF/CR, tab vs four spaces, final newline, spaces at "
+         "every token boundary, 1-3 spaces, trailing spaces, end-of-line comments, comment/blank lines, leading lines) are loaded by the real code "
+         "and must give the specification's program.",
+    note="Trusted: TLC, renderer. Edits are placed where the property allows them (not next to indentation, no blank/comment lines inside array bodies or loops).",
+    technique="TLC lexer/grammar machines validating token streams of layout variants + real loads compared with the spec's program",
+    design="7/C18")
+CLAIMED["C19"] = dict(
+    text="In the specification Load and Serialize are functions of the script (single prediction). BBHashOrder models the places where the code "
+         "iterates a set (mode map of an included program, braces around parameters, register order of a transform) with an arbitrary permutation "
+         "and TLC checks the outputs are permutation independent for the intended methods; teeth runs with the as-found methods (iteration-order "
+         "zip, textual replacement) must yield counterexamples. Scripts stressing those places (from the C01 and C07 models) are loaded and "
+         "serialised in separate interpreters under 6 (thorough 32) PYTHONHASHSEEDs; content digests and dumps text must be identical and equal "
+         "the specification's prediction.",
+    note="Trusted: TLC, SymPy's canonical printing. The register order of a transform is normalised (documented freedom) and its pairing with func checked against the spec.",
+    technique="TLC permutation-independence of set-iteration sites + multi-PYTHONHASHSEED replay against the spec's single prediction",
+    design="7/C19")
+
 NOT_YET = {}
 
 
